@@ -8,7 +8,7 @@ from ..cfg import cfg_of, CFG
 from ..guards import Env, walk, collect_atoms, valuations, norm as cnorm
 from ..report import Report
 from ..rules.classmodel import ClassModel, substitute, single_assigned_locals, CONTAINER_MUTATORS
-from ..util import callee_last, parents, enclosing_stmt, bind_args
+from ..util import callee_last, parents, enclosing_stmt, bind_args, inline_temps
 
 FG = 'fggs.fggs'
 CONCRETE = ['Graph', 'HRG', 'FactorGraph', 'FGG']
@@ -336,7 +336,7 @@ def _loop_level(lp: ast.For, selfn: str, registry: str = '_nodes', key: str = 'i
     for st in lp.body:
         if not isinstance(st, ast.If):
             continue
-        for c in [x for x in ast.walk(st.test) if isinstance(x, ast.Compare) and len(x.ops) == 1 and isinstance(x.ops[0], (ast.Eq, ast.NotEq))]:
+        for c in [x for x in ast.walk(inline_temps(lp, st.test)) if isinstance(x, ast.Compare) and len(x.ops) == 1 and isinstance(x.ops[0], (ast.Eq, ast.NotEq))]:
             sides = [c.left, c.comparators[0]]
             for a, b in (sides, sides[::-1]):
                 if norm(a) == Y and f"{selfn}.{registry}" in cnorm(b) and f"{Y}.{key}" in norm(b) and has_raise:
@@ -438,8 +438,13 @@ def copy_rules(rep: Report, prog: Program, cm: ClassModel) -> None:
                            'the mutable graph is copied' if ok else 'the copy shares the mutable graph object with the original')
         # rule lists copied per rule
         if cname in ('HRG', 'FGG'):
-            rules_store = [a for a in own_nodes(f.node) if isinstance(a, ast.Assign) and isinstance(a.targets[0], ast.Subscript)
-                           and isinstance(a.targets[0].value, ast.Attribute) and a.targets[0].value.attr == '_rules']
+            # either form: `c._rules[lhs] = [r.copy() for ...]` per key, or `c._rules = {lhs: [r.copy() for ...] for ...}` at once
+            def _rules_target(t: ast.AST) -> bool:
+                if isinstance(t, ast.Subscript):
+                    t = t.value
+                return isinstance(t, ast.Attribute) and t.attr == '_rules' and not (isinstance(t.value, ast.Name) and t.value.id == selfn)
+            rules_store = [a for a in own_nodes(f.node) if isinstance(a, ast.Assign) and _rules_target(a.targets[0])
+                           and not (isinstance(a.value, ast.Dict) and not a.value.keys) and not (isinstance(a.value, ast.Call) and callee_last(a.value) in ('dict', 'defaultdict') and not a.value.args)]
             ok = bool(rules_store) and all(any(isinstance(x, ast.Call) and callee_last(x) == 'copy' for x in ast.walk(a.value)) for a in rules_store)
             rep.ob(rule + ' independence', f.fq(), f"{cname}.copy copies every rule", f.loc(), ok,
                    'each rule list is rebuilt from r.copy()' if ok else 'rule objects are shared between the copy and the original')
